@@ -20,6 +20,7 @@ import (
 	kemtypes "github.com/flant/shell-operator/pkg/kube_events_manager/types"
 	"github.com/flant/shell-operator/pkg/metric"
 	"github.com/flant/shell-operator/pkg/utils/measure"
+	"github.com/flant/shell-operator/pkg/verifhook"
 )
 
 type resourceInformer struct {
@@ -159,6 +160,7 @@ func (ei *resourceInformer) getCachedObjects() []kemtypes.ObjectAndFilterResult 
 		res = append(res, *obj)
 	}
 	ei.cacheLock.RUnlock()
+	verifhook.At("ri.afterCopy", ei)
 
 	// Reset eventBuf if needed.
 	ei.eventBufLock.Lock()
@@ -373,6 +375,7 @@ func (ei *resourceInformer) handleWatchEvent(object interface{}, eventType kemty
 		ei.cacheLock.Unlock()
 	}
 
+	verifhook.At("ri.afterCache", ei)
 	// Fire KubeEvent only if needed.
 	if ei.shouldFireEvent(eventType) {
 		log.Debug("send KubeEvent",
@@ -394,6 +397,7 @@ func (ei *resourceInformer) handleWatchEvent(object interface{}, eventType kemty
 		ei.eventBufLock.Lock()
 		eventCbEnabled = ei.eventCbEnabled
 		ei.eventBufLock.Unlock()
+		verifhook.At("ri.afterFlag", ei)
 
 		if eventCbEnabled {
 			// Pass event info to callback.
